@@ -465,6 +465,9 @@ class Interp:
                 return self.call_fn(nm.split("::")[-1], list(args))
         if isinstance(f, tuple) and f and f[0] == "ctor":
             return {"Some": Some, "Ok": Ok, "Err": Err}[f[1]](args[0])
+        if isinstance(f, tuple) and f and f[0] == "methodref" and (f[1], f[2]) in self.prog.methods:
+            # a path to an associated function used as a value: `opt.map(Self::helper)`
+            return self._invoke(self.prog.methods[(f[1], f[2])], list(args), self_ty=f[1])
         raise Unsupported("call of non-callable %r" % (f,))
 
     # ---------------- patterns ----------------
@@ -689,7 +692,12 @@ class Interp:
             raise Unsupported("arithmetic on unmodelled value")
         if not is_sym(a) and not is_sym(b):
             if isinstance(a, float) or isinstance(b, float):
-                return {"+": a + b, "-": a - b, "*": a * b, "/": a / b}[op]
+                if op == "/":
+                    # IEEE semantics (no panic): x / 0.0 is +-inf, 0.0 / 0.0 is NaN
+                    if b == 0:
+                        return float("nan") if (a == 0 or a != a) else (float("inf") if a > 0 else float("-inf"))
+                    return a / b
+                return {"+": lambda: a + b, "-": lambda: a - b, "*": lambda: a * b}[op]()
             if op == "+":
                 return a + b
             if op == "-":
